@@ -6,6 +6,19 @@ from .errors import JSSyntaxError
 from .values import norm_number
 
 
+def _is_digit(ch) -> bool:
+    """ASCII decimal digit (str.isdigit also accepts superscripts and other scripts' digits)."""
+    return bool(ch) and "0" <= ch <= "9"
+
+
+def _is_identifier_start(ch) -> bool:
+    return bool(ch) and (ch in "_$" or ch.isidentifier())
+
+
+def _is_identifier_part(ch) -> bool:
+    return bool(ch) and (ch in "_$" or ("a" + ch).isidentifier())
+
+
 class Lexer:
     """Tokenizes JavaScript source code."""
 
@@ -210,7 +223,7 @@ class Lexer:
             # Could be 0, 0.xxx, or 0e... - fall through to decimal handling
 
         # Decimal number (integer part)
-        while self._current() and self._current().isdigit():
+        while _is_digit(self._current()):
             self._advance()
 
         # Decimal point
@@ -218,7 +231,7 @@ class Lexer:
         if self._current() == "." and self._fraction_follows():
             is_float = True
             self._advance()  # .
-            while self._current() and self._current().isdigit():
+            while _is_digit(self._current()):
                 self._advance()
 
         # Exponent
@@ -227,9 +240,9 @@ class Lexer:
             self._advance()
             if self._current() in "+-":
                 self._advance()
-            if not self._current() or not self._current().isdigit():
+            if not _is_digit(self._current()):
                 raise JSSyntaxError("Invalid number literal", line, col)
-            while self._current() and self._current().isdigit():
+            while _is_digit(self._current()):
                 self._advance()
 
         num_str = self.source[start : self.pos]
@@ -241,21 +254,19 @@ class Lexer:
         """After the integer digits of a decimal literal, does this '.' belong to it?
         5.25, 5. and 5.e3 are numbers; in 5.toString the dot is a member access."""
         nxt = self._peek()
-        if not nxt or nxt.isdigit():
+        if not nxt or _is_digit(nxt):
             return True
         if nxt in "eE":
             after = self._peek(2)
             if after and after in "+-":
                 after = self._peek(3)
-            return bool(after) and after.isdigit()
-        return not (nxt.isalpha() or nxt in "_$")
+            return _is_digit(after)
+        return not _is_identifier_start(nxt)
 
     def _read_identifier(self) -> str:
         """Read an identifier."""
         start = self.pos
-        while self._current() and (
-            self._current().isalnum() or self._current() in "_$"
-        ):
+        while _is_identifier_part(self._current()):
             self._advance()
         return self.source[start : self.pos]
 
@@ -277,12 +288,12 @@ class Lexer:
             return Token(TokenType.STRING, value, line, column)
 
         # Number literals
-        if ch.isdigit() or (ch == "." and self._peek().isdigit()):
+        if _is_digit(ch) or (ch == "." and _is_digit(self._peek())):
             value = self._read_number()
             return Token(TokenType.NUMBER, value, line, column)
 
         # Identifiers and keywords
-        if ch.isalpha() or ch in "_$":
+        if _is_identifier_start(ch):
             value = self._read_identifier()
             token_type = KEYWORDS.get(value, TokenType.IDENTIFIER)
             return Token(token_type, value, line, column)
